@@ -4,5 +4,5 @@ CONSTANTS
   MaxMsgs = 3
 INIT Init
 NEXT Next
-INVARIANTS PolicyTotal PolicyClauses OutcomeFunction PhaseIrrelevant RouteInv CtrOK
+INVARIANTS PolicyTotal PolicyClauses OutcomeFunction PhaseIrrelevant HistoryIrrelevant RouteInv CtrOK
 CHECK_DEADLOCK FALSE
